@@ -20,6 +20,18 @@ checks = {
    technique="stateless model checking of the real kernel incl. both orders inside one SQL batch, cross-table invariants at every commit",
    text="Every interleaving (including both orders inside one SQL transaction batch) of callback/subscription registrations and re-registrations with every completion path of the awaited promise (explicit, lazy time-out by read/create/search, background sweep), 0-3 existing registrations, one injected failure (two thorough) and one crash. At every commit: no registration refers to a non-pending promise; the completing commit turns exactly the registrations into tasks; a notification task leaves its initial state only through a command addressed to it; every acknowledged registration either reports a completed promise or left a registration/task.",
    note="One awaited promise, two roots, three registration ids. F1 (stale PENDING acknowledgement) was repaired by a fix: commit; F9 (racing second completion finishes undelivered notification tasks) is a listed known finding."),
+ "C07": dict(engine=A, design="4/C07",
+   technique="explicit-state enumeration of worker operation sequences against a status oracle + stateless model checking of concurrent workers with a lease monitor kept by the oracle",
+   text="(i) Every sequence of <=3 (4 thorough) claim/complete/heartbeat/complete-promise operations of two workers with current, stale and future counters and ttl {0,5}, from task states init/enqueued/claimed/reclaimed, with the clock stepping over the lease end and the lease and dispatch sweeps placed anywhere, each status compared with an oracle; (ii) every interleaving of two concurrent workers with the sweeps and one injected failure. At every commit: allowed task edges only, counter never decreases and increases exactly on a fall-back to init, claimed only from unclaimed-unfinished with equal counter, lease fields change only by the holder's heartbeat, and a claimed task is taken away only when the lease the oracle tracks (claim or last timely heartbeat + ttl), the task timeout or the promise completion allows it; at most one acknowledged claim per (task, counter).",
+   note="One task (plus its promise), two workers, ttl {0,5}, clock menu 4/5/6 around the lease end. A heartbeat that straddles the lease end may count either way (same reading as C04 for requests that straddle a deadline)."),
+ "C08": dict(engine=A, design="4/C08",
+   technique="stateless model checking of the real kernel incl. router/sender outcomes; the real SenderWorker builds the dispatched message that the oracle parses",
+   text="Every interleaving of (a) two racing creations (routed string / routed JSON receiver / unrouted / malformed routing tag, with and without task) with one router or store failure and both orders in one SQL batch, (b) promise completion, claims and task completion with dispatch cycles (task batch size 1, 2, 100; accepted / refused / failed hand-offs) and the lease sweep. Commit monitors: routed promise <=> invocation task in the same commit, refused create-with-task leaves nothing, completion finishes every outstanding task of the root; dispatch monitors on what each cycle reads and sends: only init tasks, one per root, no active sibling, enqueued only after an accepted hand-off, failed hand-off => attempt+1, notification finished only after an attempt; message oracle on the body built by the real sender worker.",
+   note="Two roots, <=4 tasks. F10 (router failure silently dropped the route) repaired by a fix: commit. Lease arithmetic is C07's."),
+ "C09": dict(engine=A, design="4/C09",
+   technique="explicit-state enumeration of lock operation sequences + stateless model checking of concurrent lock requests (incl. both orders in one SQL batch) with a lease monitor",
+   text="(i) Every sequence of <=3 (4 thorough) acquire/re-acquire/release/heartbeat operations over 2 resources, 2 executions, 2 processes, ttl {0,5}, with the clock stepping over the lease end and the expiry sweep placed anywhere; (ii) every interleaving of two clients with the sweep, one injected failure, and both orders inside one SQL batch. Transition monitor on locks (holder never changes in place; a row disappears only by its own execution's release or by a sweep at or after the lease end; lease fields change only by the same execution's acquire or its process's heartbeat; nothing but an acquire creates a row) and exact response oracle (each lock request is one transaction).",
+   note="Argument domains as listed; serial-store trust as for C01."),
 }
 m = {
  "version": 1,
